@@ -9,7 +9,8 @@ PLAINR = dict(restart=0.15)
 
 LEDGER_PROFILES = {
     'C03': [(['m01', 'm02', 'm03', 'm04', 'm05', 'm06', 'm07', 'm08', 'm10', 'm11', 'm12', 'm13', 'm17'], FXR, 60, 600),
-            (['m01', 'm03', 'm04', 'm05', 'm10'], PLAINR, 80, 800)],
+            (['m01', 'm03', 'm04', 'm05', 'm10'], PLAINR, 80, 800),
+            (['m19'], PLAINR, 150, 1500)],      # the outermost machine itself has a history policy; stop / start again
     'C17': [(['m08', 'm10'], FXR, 250, 2500),
             (['m08', 'm10'], dict(reads=True, effects=0.2), 150, 1500)],
 }
